@@ -75,6 +75,7 @@ type Define struct {
 	Ret    string
 	Body   Expr
 	Src    string
+	Opaque bool // elaborated as an uninterpreted function (per heap state) with a definitional axiom
 }
 
 type Axiom struct {
@@ -103,7 +104,7 @@ func NewSpecs() *Specs {
 
 var trailingComment = regexp.MustCompile(`\s{2,}#.*$`)
 
-var kwRe = regexp.MustCompile(`^(requires|ensures|invariant|decreases|assert|modifies|loop|at-call|func|assumed|fun|axiom|define|ghost|sort|pure)\b(\[[^\]]*\])?\s*(.*)$`)
+var kwRe = regexp.MustCompile(`^(requires|ensures|invariant|decreases|assert|modifies|loop|at-call|func|assumed|fun|axiom|define|opaque|ghost|sort|pure)\b(\[[^\]]*\])?\s*(.*)$`)
 
 type rawItem struct {
 	kw, tags, rest string
@@ -180,7 +181,7 @@ func (s *Specs) LoadFile(path string, commentPrefix string) error {
 			s.Funs[fd.Name] = fd
 			s.FunList = append(s.FunList, fd)
 			cur = nil
-		case "define":
+		case "define", "opaque":
 			eq := strings.Index(rest, " = ")
 			if eq < 0 {
 				return perr(it, "define f(args) T = body")
@@ -193,7 +194,7 @@ func (s *Specs) LoadFile(path string, commentPrefix string) error {
 			if err != nil {
 				return perr(it, "%v", err)
 			}
-			s.Defines[fd.Name] = &Define{fd.Name, fd.Params, fd.Ret, body, rest}
+			s.Defines[fd.Name] = &Define{fd.Name, fd.Params, fd.Ret, body, rest, it.kw == "opaque"}
 			cur = nil
 		case "axiom":
 			c := strings.Index(rest, ":")
